@@ -425,6 +425,17 @@ fn extract_locale_enum(idx: &Index, enum_path: &AbsPath) -> J {
             .and_then(|(info, f)| ev.call_fn(info, f, None, vec![Val::Str(Term::Var("s".into()))]))
             .and_then(|v| render_result(&v));
         m.insert("from_str_term".into(), term_or_err(r));
+        // `impl Display for Locale` (what the cookie codec FromToStringCodec writes): must print as_str
+        {
+            let mut ev = Ev::new(idx);
+            let r = idx.find_method(enum_path, "fmt", Some("Display")).first().copied().ok_or("no Display impl".to_string()).and_then(|(info, f)| {
+                let id = ev.sinks.len();
+                ev.sinks.push(vec![]);
+                ev.call_fn(info, f, Some(Val::Loc(LocT::Sym)), vec![Val::Sink(id)])?;
+                Ok(Term::cat(std::mem::take(&mut ev.sinks[id])))
+            });
+            m.insert("display_term".into(), term_or_err(r));
+        }
         for name in ["direction", "as_icu_locale"] {
             let mut ev = Ev::new(idx);
             let r = idx.find_method(enum_path, name, None).first().copied().ok_or(format!("no {}", name))
